@@ -142,6 +142,9 @@ static void run_case(Ctx& c, uint64_t idx) {
     default: {
         Str s; switch (r.below(5)) { case 4: { static const char* const US[] = {"file://localhost/etc/fstab", "file:///x%20y", "file:/x", "file:c:/x", "file://srv/share/a", "FILE:///x", "file://localhost", "file:///C:/x%41", "file:///C|/x", "rel/x%41", "file:", "file://", "file:///", "file://LOCALHOST/x", "file://localhost:80/x", "http://h/p", "file:////srv/x"}; s = US[r.below(17)]; if (r.chance(1, 4)) s = mutate(r, s, 1); } break;
             case 0: s = gen_filename_unix(r); break; case 1: s = gen_filename_win(r); break; case 2: { static const char* ip[] = {"1.2.3.4", "255.255.255.255", "256.1.1.1", "1.2.3", "01.2.3.4", "1.2.3.4.", "0.0.0.0", "1.2.3.4x", "999.1.1.1", "25.25.25.25", "1..2.3"}; s = ip[r.below(11)]; if (r.coin()) s = mutate(r, s, 1); } break; default: s = gen_string(r, 24); }
+        if (r.chance(1, 24)) {      // a query as real ones look: short keys, one long token that needs no escaping (digest, session id, JWT)
+            static const char tk[] = "0123456789abcdefABCDEFghijklmnopqrstuvwxyzGHIJKLMNOPQRSTUVWXYZ-._~"; Str t(special_length(r) % 1100, 'a'); int style = (int)r.below(3); for (auto& ch : t) ch = tk[style == 0 ? r.below(16) : r.below(sizeof tk - 1)];
+            s = r.coin() ? "user=j&sig=" + t : t + "=1&x"; }
         for (auto& ch : s) if (!ch) ch = 1;
         int plus = (int)r.below(2), nb = (int)r.below(2), br = (int)r.below(4);
         c.note("aw strings \"" + esc(s.substr(0, 200)) + "\""); c.distinct(hash_str(s, 3));
